@@ -265,7 +265,8 @@ func (m *vestMachine) actWithdraw() {
 	// query agreement (C06): withdrawable per pool before the withdrawal in the same block
 	var qWithdrawable, qLocked, qSent []string
 	if len(pre) > 0 {
-		q, err := m.v.App.CfevestingKeeper.VestingPools(sdk.WrapSDKContext(m.v.Ctx), &vestingtypes.QueryVestingPoolsRequest{Owner: m.spell("queryOwnerSpelling", owner)})
+		q := &vestingtypes.QueryVestingPoolsResponse{}
+		err := QueryRouted(m.v.App, m.v.Ctx, "/chain4energy.c4echain.cfevesting.Query/VestingPools", &vestingtypes.QueryVestingPoolsRequest{Owner: m.spell("queryOwnerSpelling", owner)}, q)
 		if err != nil {
 			m.fail("VestingPools query failed for an owner with pools: %v", err)
 		}
